@@ -232,6 +232,7 @@ func ParseCigar(b []byte) (Cigar, error) {
 		err error
 	)
 	for i := 0; i < len(b); i++ {
+		found := false
 		for j := i; j < len(b); j++ {
 			if b[j] < '0' || '9' < b[j] {
 				n, err = atoi(b[i:j])
@@ -240,8 +241,12 @@ func ParseCigar(b []byte) (Cigar, error) {
 				}
 				op = cigarOpTypeLookup[b[j]]
 				i = j
+				found = true
 				break
 			}
+		}
+		if !found {
+			return nil, fmt.Errorf("sam: failed to parse cigar string %q: length without operation", b)
 		}
 		if op == lastCigar {
 			return nil, fmt.Errorf("sam: failed to parse cigar string %q: unknown operation %q", b, op)
